@@ -295,6 +295,7 @@ Proof.
                | [] => MCrash
                | cur :: _ =>
                    if is_test cur || d_accept_children (f_def cur) then MFalse st1
+                   else if pending_param cur then MErr EMissingParam
                    else
                      match check_completion (with_cstate CNone st1) false with
                      | MTrue st2 =>
@@ -315,6 +316,7 @@ Proof.
     - destruct (p_stack s); cbn; auto. destruct (_ && _); cbn; auto. left. exact Hr.
     - destruct (p_stack s) as [|cur rest]; cbn; auto.
       destruct (is_test cur || _); cbn; auto.
+      destruct (pending_param cur); cbn; auto.
       pose proof (check_completion_keeps (with_cstate CNone s) false) as Hc. cbn in Hc.
       destruct (check_completion (with_cstate CNone s) false) as [s2|s2|s2|e|]; cbn in *; auto;
         try congruence.
@@ -1105,6 +1107,7 @@ Proof.
                | [] => MCrash
                | cur :: _ =>
                    if is_test cur || d_accept_children (f_def cur) then MFalse st1
+                   else if pending_param cur then MErr EMissingParam
                    else
                      match check_completion (with_cstate CNone st1) false with
                      | MTrue st2 =>
@@ -1126,6 +1129,7 @@ Proof.
     - destruct (p_stack s); cbn; auto. destruct (_ && _); cbn; auto.
     - destruct (p_stack s) as [|cur rest]; cbn; auto.
       destruct (is_test cur || _); cbn; auto.
+      destruct (pending_param cur); cbn; auto.
       pose proof (check_completion_good (p_loaded st) (with_cstate CNone s) false Hr) as Hc.
       destruct (check_completion (with_cstate CNone s) false) as [s2|s2|s2|e|]; cbn in *; auto.
       + destruct (complete_cb s2) as [s3|s3|s3|e|] eqn:Ecb; cbn; auto.
